@@ -184,7 +184,7 @@ def build_runner():
     # everything Extract.v imports must be compiled consistently first
     ex = open(os.path.join(COQ, "Extract.v")).read()
     mods = []
-    for kind, d in (("RxModel", "Model"), ("RxSpec", "Spec")):
+    for kind, d in (("RxModel", "Model"), ("RxSpec", "Spec"), ("RxProofs", "Proofs")):
         for m in re.findall(r"From %s Require Import ([^.]*)\." % kind, ex):
             mods += ["%s/%s.vo" % (d, x) for x in m.split()]
     coq_make(mods)
@@ -195,11 +195,12 @@ def build_runner():
             for f in os.listdir(os.path.join(COQ, d)):
                 if f.endswith(".vo"):
                     deps.append(os.path.join(COQ, d, f))
+        deps += [os.path.join(COQ, m) for m in mods if m.startswith("Proofs/")]
         if os.path.exists(runner) and all(os.path.getmtime(d) <= os.path.getmtime(runner) for d in deps):
             return
         gen = os.path.join(OCAML, "build")
         os.makedirs(gen, exist_ok=True)
-        q = ["-Q", os.path.join(COQ, "Model"), "RxModel", "-Q", os.path.join(COQ, "Spec"), "RxSpec"]
+        q = ["-Q", os.path.join(COQ, "Model"), "RxModel", "-Q", os.path.join(COQ, "Spec"), "RxSpec", "-Q", os.path.join(COQ, "Proofs"), "RxProofs"]
         sh(["timeout", "600", "coqc"] + q + ["-o", os.path.join(gen, "Extract.vo"), os.path.join(COQ, "Extract.v")],
            cwd=gen, check=True)
         for f in ("driver.ml", "cases.ml"):
